@@ -1,6 +1,9 @@
 //! Property checks: which engines run for which property, with how many runs per tier.
 use crate::core::*;
 use crate::e1_tx::TxSim;
+use crate::e1_twin::TwinSim;
+use crate::e1_collide::CollideSim;
+use crate::e1_valid::ValidSim;
 use crate::e2_journal::JournalSim;
 
 fn seed_from_env() -> u64 {
@@ -82,6 +85,32 @@ pub fn check(prop: &str, tier: &str) -> i32 {
                 rep.run_engine(&JournalSim { focus: "C34".into() }, scale(tier, 100_000, 5_000_000), &findings);
             }
         }
+        "C28" | "C31" | "C22" => {
+            rep.rule = format!("twin execution: the same seeded history (2-8 ops: transactions through transact / transact_commit / preverify / transact_preverified, {}) is applied to two systems and every result, returned state and the final committed state are compared; F1 database faults at drawn call indices{}; non-trivial if a transaction executed, distinct by the hash of (spec, op kinds, outcome classes)", match prop { "C28" => "observing inspector NoOp/Gas/EIP-3155/monitor vs no inspector", "C31" => "spec changes, block advances; one reused Evm vs a brand-new Evm around the same database for every op", _ => "modify_spec_id, with_spec_id, append/pop handler register, modify().build(); reward-off handler vs reward-on handler" }, if prop == "C31" { " and enumerated over every database call index of marked ops" } else { "" });
+            if prop == "C31" {
+                rep.level = "fault_enumeration".into();
+            }
+            rep.real_components = strs(REAL_E1);
+            rep.real_components.push("revm inspectors NoOpInspector, GasInspector, TracerEip3155 (C28)".into());
+            rep.stub_components = strs(STUB_E1);
+            rep.assumptions = vec!["spec changes stay on one side of Spurious Dragon (the state-clear flag of the database layers is the embedder's job)".into(), "C22: histories in which the beneficiary is a party of a transaction are not compared (the twins may legitimately diverge)".into()];
+            rep.run_engine(&TwinSim { mode: prop.into() }, scale(tier, 30_000, 1_500_000), &findings);
+        }
+        "C21" => {
+            rep.rule = "collision matrix drawn per run: target pre-state {absent, code, nonce, storage only, balance only, nonce+storage} x layer stack {Raw, CacheDB, State, State+bundle, WrapDatabaseRef, WrapDatabaseRef<CacheDB>, CacheDB<CacheDB>, State<CacheDB>, Box<State<Box>>} (+ storage inserted into the CacheDB) x {CREATE, CREATE2, create transaction} x spec x {target touched by an earlier transaction or not} x value; a cell is distinct by (spec, layer, target state, kind, warm-up, value, lazy code)".into();
+            rep.real_components = strs(REAL_E1);
+            rep.stub_components = strs(STUB_E1);
+            rep.assumptions = vec!["EIP-7610 is applied for every spec, as the property states".into(), "CREATE/CREATE2 cells run from Tangerine/Petersburg on (before EIP-150 a failed create leaves the caller without gas)".into()];
+            rep.run_engine(&CollideSim, scale(tier, 40_000, 1_000_000), &findings);
+        }
+        "C02" => {
+            rep.rule = "seeded histories of 1-10 transactions on one Evm whose fields are mutated to boundary values (gas limit around intrinsic/floor/block limit, fees around the base fee, nonce around the state nonce, value around the balance, overflowing cost products, sender with code / delegated, initcode around the size limit, blob counts and versions, authorization lists, access lists before Berlin, chain id, missing header fields); oracle 1: an executable validity predicate written from the EIPs must agree on accept / reject-transaction / reject-header; oracle 2: the same history without the rejected transactions on a second system gives equal results and an equal final state; F1: database faults during validation; non-trivial always, distinct by the hash of (spec, verdict and rule sequence)".into();
+            rep.real_components = strs(REAL_E1);
+            rep.stub_components = strs(STUB_E1);
+            rep.stub_components.push("validity predicate (sim/src/model.rs, written from the EIP texts)".into());
+            rep.assumptions = vec!["only the class of a rejection is compared (several rules can fail at once)".into(), "type-4 transactions with nil `to` are not generated (not expressible on the wire)".into()];
+            rep.run_engine(&ValidSim, scale(tier, 60_000, 3_000_000), &findings);
+        }
         _ => {
             eprintln!("unknown property {prop}");
             return 2;
@@ -110,6 +139,9 @@ pub fn replay(path: &str) -> i32 {
     let res = match engine_kind.as_str() {
         "journalsim" => replay_with(&JournalSim { focus }, &rf),
         "txsim" => replay_with(&TxSim { focus }, &rf),
+        "twinsim" => replay_with(&TwinSim { mode: focus }, &rf),
+        "validsim" => replay_with(&ValidSim, &rf),
+        "collidesim" => replay_with(&CollideSim, &rf),
         other => Err(format!("unknown engine {other}")),
     };
     match res {
